@@ -245,3 +245,40 @@ Proof.
   destruct (peers_for_ok _ _ _ _ P) as [N4 OK]. pose proof (accepted_pool_names_nodup _ _ _ PF) as N5.
   repeat split; assumption.
 Qed.
+
+Lemma full_acceptance_order_independent srt iter iter' m a b :
+  hsort srt -> map_order iter -> map_order iter' -> fnodup a -> fperm a b ->
+  (full_to_config srt iter m a = None <-> full_to_config srt iter' m b = None).
+Proof.
+  intros H I I' N P. rewrite (full_to_config_deterministic srt srt iter iter' m a b H H I I' N P). tauto.
+Qed.
+
+Lemma full_pools_are_pools_for iter m fr c : full_for iter m fr = Some c ->
+  exists tbl bgp, comms_for (f_comms fr) = Some tbl /\ resolve_bgp tbl (f_bgp fr) = Some bgp /\
+                  pools_for iter (base_of fr bgp) = Some (fc_pools c).
+Proof.
+  intros H. destruct (full_for_some _ _ _ _ H) as (tbl & bgp & _ & _ & _ & C & R & P & _).
+  exists tbl, bgp. auto.
+Qed.
+
+(* end to end: once a configuration computed from one listing is remembered, an event after which
+   the API server lists the same objects in any other order (and Go iterates its maps in any
+   other order) neither calls the handler nor forces a re-sync *)
+Lemma permuted_listing_never_reloads srt iter iter' m a b pv (ceq : fconfig -> fconfig -> bool) st c h :
+  hsort srt -> map_order iter -> map_order iter' -> fnodup a -> fperm a b ->
+  full_to_config srt iter m a = Some c -> rs_cur st = Some c -> ceq c c = true ->
+  reconcile pv ceq st (full_to_config srt iter' m b) h = st.
+Proof.
+  intros H I I' N P E R X.
+  rewrite <- (full_to_config_deterministic srt srt iter iter' m a b H H I I' N P), E.
+  apply reconcile_skips_equal; assumption.
+Qed.
+
+(* a snapshot that is refused leaves the reconciler untouched whatever the order *)
+Lemma refused_listing_keeps_state srt iter iter' m a b pv (ceq : fconfig -> fconfig -> bool) st h :
+  hsort srt -> map_order iter -> map_order iter' -> fnodup a -> fperm a b ->
+  full_to_config srt iter m a = None -> reconcile pv ceq st (full_to_config srt iter' m b) h = st.
+Proof.
+  intros H I I' N P E.
+  rewrite <- (full_to_config_deterministic srt srt iter iter' m a b H H I I' N P), E. reflexivity.
+Qed.
